@@ -656,3 +656,52 @@ def _which(o, objs):
 def _subseq(a, b):
     it = iter(b)
     return all(x in it for x in a)
+
+
+# ---------------------------------------------------------------------------------------------------------------- the hedger
+HEDGER_METHODS = ("compute_hedge", "compute_portfolio", "compute_pl", "compute_loss", "price")
+
+
+def hedger_histories_rule(ctx, run, rule):
+    """second sentence of C16 on the hedger itself: for every ordered pair (m1, m2) of computing methods and both evaluation modes, the value of
+    h.m2(d2) after h.m1(d1) is a function of d2 (and the hedger's model and criterion) only - no symbol of d1, and none of the derivative
+    the input features happened to be bound to before, occurs in it"""
+    from . import world as W
+    prog, interp = ctx.prog, ctx.interp
+    L = "pfhedge.nn.modules.loss."
+    run.require(rule, 2 * len(HEDGER_METHODS) ** 2)
+    for feats in (["Moneyness"], ["Moneyness", "PrevHedge"]):
+        mode = "recurrent" if "PrevHedge" in feats else "vectorised"
+        for m1 in HEDGER_METHODS:
+            for m2 in HEDGER_METHODS:
+                if prog.lookup_method(W.HEDGER, m1) is None or prog.lookup_method(W.HEDGER, m2) is None:
+                    raise AnalysisError(f"anchor vanished: Hedger.{m1} / Hedger.{m2}")
+                src = f"def history(h, d1, d2):\n    a = h.{m1}(d1)\n    b = h.{m2}(d2)\n    return a, b\n"
+                fi = FuncInfo("synthetic.hedger_history", "pfhedge.nn.modules.hedger", ast.parse(src).body[0])
+                fobjs = [W.feature(c, derivative=W.option("bound_before"), **({"log": False} if c == "Moneyness" else {})) for c in feats]
+                h = W.hedger(prog, fobjs)
+                h.attrs["criterion"] = Obj(L + "EntropicRiskMeasure", "criterion", dict(a=W.fl("a")))
+                try:
+                    allres = interp.explore(fi, [h, W.option("d1"), W.option("d2")], {}, max_paths=200)
+                except Unsupported as ex:
+                    raise AnalysisError(f"hedger history {m1}(d1); {m2}(d2) [{mode}]: {ex}")
+                res = [r for r in allres if not r["raises"]]
+                if not res:
+                    raise AnalysisError(f"hedger history {m1}(d1); {m2}(d2) [{mode}]: no non-raising path")
+                bad = []
+                for r in res:
+                    a, b = r["value"]
+                    na = {s_.name for s_ in walk(a) if isinstance(s_, Sym)}
+                    nb = {s_.name for s_ in walk(b) if isinstance(s_, Sym)}
+                    if any(n_ == "d1" or n_.startswith("d1.") for n_ in nb):
+                        bad.append(f"{m2}(d2) after {m1}(d1) depends on d1 ({sorted(n_ for n_ in nb if n_.startswith('d1'))[0]})")
+                    if any(n_.startswith("bound_before") for n_ in na | nb):
+                        bad.append("the result reads the derivative the input features were bound to before the call")
+                    if not any(n_.startswith("d2.") for n_ in nb):
+                        bad.append(f"{m2}(d2) does not depend on d2")
+                bad = sorted(set(bad))
+                run.oblige(rule, f"Hedger [{mode}]: {m2}(d2) after {m1}(d1) is a function of d2 only", not bad, "; ".join(bad))
+                if bad:
+                    fi2 = prog.lookup_method(W.HEDGER, m2)
+                    run.fail(Finding(rule, fi2.qualname, f"[{mode}] {m1}(d1) ; {m2}(d2): " + "; ".join(bad)[:260], "the result of hedging a derivative depends on what the hedger was used with before",
+                                     file=str(prog.modules[fi2.module].path), line=fi2.node.lineno, case=f"{mode}: {m1} ; {m2}"))
